@@ -199,7 +199,7 @@ PROPS = {
     },
     "C15": {
         "title": "Index sets number the members of a set 0..n-1 in lexicographic order",
-        "rules": [rules_orphan.rule_terminal_root, on_program(rules_codec.rule_header_type), rules_orphan.rule_index_width],
+        "rules": [rules_orphan.rule_terminal_root, on_program(rules_codec.rule_header_type), rules_orphan.rule_index_width, on_program(rules_sibling.rule_getelem_twins)],
         "explanation": STRUCTURAL + ". C15: the lookup-failure clause (an index lookup that runs into a terminal must fail, not unpack it) and the cardinality-header clause (every accessor of the index-set cardinality header uses one element type).",
         "assumptions": ["the numbering itself (offsets accumulated as edge values) is not decided"],
         "technique": "def-to-use path rule over clang CFGs (non-terminal arm of a handle test must be crossed before unpacking); writer/reader element-type agreement",
